@@ -11,8 +11,9 @@ from pbt import pyoracle
 from pbt.worker import outcome
 
 WORK = os.path.join(os.environ.get("VERIF_ROOT", "/verif"), "work")
-DIRS = ["", "", "pkg", "pkg/sub", "a.b", "my-dir", "pkg/src", "target", "deep/er/est"]
-STEMS = ["main", "util", "mod_a", "b", "c.d", "x-y", "zz", "Alpha"]
+# names of which one is a prefix of a sibling (util.mamba next to util/, core/ next to core-ext/): byte order and path order differ
+DIRS = ["", "", "pkg", "pkg/sub", "a.b", "my-dir", "pkg/src", "target", "deep/er/est", "util", "util", "core", "core-ext", "pkg/util"]
+STEMS = ["main", "util", "util", "mod_a", "b", "c.d", "x-y", "zz", "Alpha", "core", "core-ext"]
 FAULTS = {
     "lex": "def bad := !\n",
     "syntax": "def bad := (1 +\n",
